@@ -2,6 +2,8 @@ package c06
 
 import (
 	"fmt"
+	"os"
+	"path/filepath"
 	"strings"
 	"testing"
 	"time"
@@ -57,10 +59,11 @@ var dfStdSpellings = []struct {
 
 type dfCase struct {
 	Zone    string `json:"zone"`
-	Active  []int  `json:"active"`  // indexes into dfFormats, in the order they are added
-	Removed []int  `json:"removed"` // added and removed again
-	SetAs   string `json:"set_as"`  // set | json | add
-	A       tzTime `json:"a"`       // Spelling: a standard name or "fmt:<index into dfFormats>"
+	Active  []int  `json:"active"`           // indexes into dfFormats, in the order they are added
+	Removed []int  `json:"removed"`          // added and removed again
+	SetAs   string `json:"set_as"`           // set | json | add | reload (csvq_env.json in the working directory + RELOAD CONFIG)
+	Before  bool   `json:"before,omitempty"` // the same comparisons are evaluated (and judged: no custom format is active yet) before the formats are set
+	A       tzTime `json:"a"`                // Spelling: a standard name or "fmt:<index into dfFormats>"
 	B       tzTime `json:"b"`
 	Op      string `json:"op"`
 }
@@ -123,7 +126,7 @@ func dfText(x tzTime, loc *time.Location) string {
 }
 
 func genDf(t *rapid.T) dfCase {
-	c := dfCase{Zone: fw.PickU(t, "zone", tzZones), SetAs: fw.PickU(t, "setAs", []string{"set", "json", "add"}), Op: fw.PickU(t, "op", relOps)}
+	c := dfCase{Zone: fw.PickU(t, "zone", tzZones), SetAs: fw.PickU(t, "setAs", []string{"set", "json", "add", "reload"}), Op: fw.PickU(t, "op", relOps)}
 	// 1-3 active formats, 0-1 removed, all distinct
 	perm := rapid.Permutation([]int{0, 1, 2, 3, 4, 5, 6, 7, 8, 9}).Draw(t, "formats")
 	nActive := fw.Range(t, "nActive", 1, 3)
@@ -153,6 +156,7 @@ func genDf(t *rapid.T) dfCase {
 		c.B = c.A
 	}
 	c.B.Spelling = spelling("b")
+	c.Before = fw.Pct(t, "before", 40)
 	if rel != 3 {
 		// the same wall-clock time, cut to what both spellings can carry, so that equality stays frequent
 		p := dfPrec(c.A.Spelling)
@@ -183,13 +187,15 @@ func genDf(t *rapid.T) dfCase {
 	return c
 }
 
-func dfIsActive(c dfCase, spelling string) bool {
+func dfIsActive(c dfCase, spelling string) bool { return dfIsActiveIn(c.Active, spelling) }
+
+func dfIsActiveIn(active []int, spelling string) bool {
 	if !strings.HasPrefix(spelling, "fmt:") {
 		return true
 	}
 	var k int
 	fmt.Sscanf(spelling, "fmt:%d", &k)
-	for _, a := range c.Active {
+	for _, a := range active {
 		if a == k {
 			return true
 		}
@@ -197,57 +203,14 @@ func dfIsActive(c dfCase, spelling string) bool {
 	return false
 }
 
-func checkDf(c dfCase) (fw.Outcome, *fw.Violation) {
-	o := fw.Outcome{}
-	loc, err := time.LoadLocation(c.Zone)
-	if err != nil {
-		return o, fw.Harness("zone %s: %v", c.Zone, err)
-	}
-	for _, k := range append(append([]int{}, c.Active...), c.Removed...) {
-		if k < 0 || k >= len(dfFormats) {
-			o.Discard = true
-			return o, nil
-		}
-	}
-	s, err := run.NewSess(run.Opt{Dir: fw.WorkDir()})
-	if err != nil {
-		return o, fw.Harness("%v", err)
-	}
-	defer s.Close()
-	var setup []string
-	setup = append(setup, fmt.Sprintf("SET @@TIMEZONE TO '%s'", c.Zone))
-	all := append(append([]int{}, c.Active...), c.Removed...)
-	switch c.SetAs {
-	case "json":
-		q := make([]string, len(all))
-		for i, k := range all {
-			q[i] = `"` + dfFormats[k].Fmt + `"`
-		}
-		setup = append(setup, fmt.Sprintf("SET @@DATETIME_FORMAT TO '[%s]'", strings.Join(q, ", ")))
-	case "add":
-		for _, k := range all {
-			setup = append(setup, fmt.Sprintf("ADD '%s' TO @@DATETIME_FORMAT", dfFormats[k].Fmt))
-		}
-	default:
-		for _, k := range all {
-			setup = append(setup, fmt.Sprintf("SET @@DATETIME_FORMAT TO '%s'", dfFormats[k].Fmt))
-		}
-	}
-	for _, k := range c.Removed {
-		setup = append(setup, fmt.Sprintf("REMOVE '%s' FROM @@DATETIME_FORMAT", dfFormats[k].Fmt))
-	}
-	for _, q := range setup {
-		if r := s.Exec(q); r.Err != nil {
-			err := r.Err
-			return o, fw.V("dtfmt_flag_error", "%s: %v", q, err)
-		}
-	}
+// dfJudge evaluates every comparison form over the two texts in session s and judges them for the given set of
+// active custom formats (indexes into dfFormats).
+func dfJudge(s *run.Sess, c dfCase, loc *time.Location, active []int, setupDesc string) (rel ref.Rel, bothDt bool, discard bool, viol *fw.Violation) {
 	a, b := dfText(c.A, loc), dfText(c.B, loc)
 	qa, qb := val.QuoteSQL(a), val.QuoteSQL(b)
-	bothDt := dfIsActive(c, c.A.Spelling) && dfIsActive(c, c.B.Spelling)
+	bothDt = dfIsActiveIn(active, c.A.Spelling) && dfIsActiveIn(active, c.B.Spelling)
 	// expected relation: instants when both strings are datetimes in this session, the ladder's remaining steps
 	// (for these spellings: integer for two %Y%m%d strings, else text) otherwise
-	var rel ref.Rel
 	if bothDt {
 		ia, ib := dfNorm(c.A).instant(loc), dfNorm(c.B).instant(loc)
 		switch {
@@ -264,13 +227,12 @@ func checkDf(c dfCase) (fw.Outcome, *fw.Violation) {
 		_, bDt := ref.AsDatetime(sb)
 		if aDt && bDt {
 			// cannot happen: one of the two is written in a format that is not active
-			return o, fw.Harness("both %q and %q are standard spellings", a, b)
+			return rel, bothDt, false, fw.Harness("both %q and %q are standard spellings", a, b)
 		}
 		var open bool
 		rel, open = ref.Compare(sa, sb)
 		if open {
-			o.Discard = true
-			return o, nil
+			return rel, bothDt, true, nil
 		}
 	}
 	type item struct{ name, sql, op string }
@@ -299,17 +261,17 @@ func checkDf(c dfCase) (fw.Outcome, *fw.Violation) {
 		fmt.Sprintf(", (CASE %s WHEN %s THEN 1 ELSE 0 END), (DATETIME(%s) %s DATETIME(%s))", qa, qb, qa, c.Op, qb)
 	tbl, qerr := s.Query(sql)
 	if qerr != nil {
-		return o, fw.V("dtfmt_error", "%s after %s: %v", sql, strings.Join(setup, "; "), qerr)
+		return rel, bothDt, false, fw.V("dtfmt_error", "%s after %s: %v", sql, setupDesc, qerr)
 	}
 	ctx := func() string {
-		return fmt.Sprintf("after %s; a is %s, b is %s", strings.Join(setup, "; "), c.A.Spelling, c.B.Spelling)
+		return fmt.Sprintf("after %s; a is %s, b is %s", setupDesc, c.A.Spelling, c.B.Spelling)
 	}
 	row := tbl.Rows[0]
 	for i, it := range items {
 		want := ref.Op(rel, it.op)
 		tv, ok := ternOf(row[i])
 		if !ok || tv != want {
-			return o, fw.V("dtfmt_"+strings.SplitN(it.name, " ", 2)[0], "SELECT %s => %s, expected %s (%s)", it.sql, row[i], ref.TernName(want), ctx())
+			return rel, bothDt, false, fw.V("dtfmt_"+strings.SplitN(it.name, " ", 2)[0], "SELECT %s => %s, expected %s (%s)", it.sql, row[i], ref.TernName(want), ctx())
 		}
 	}
 	wantCase := val.Int(0)
@@ -317,7 +279,7 @@ func checkDf(c dfCase) (fw.Outcome, *fw.Violation) {
 		wantCase = val.Int(1)
 	}
 	if g := row[len(items)]; g != wantCase {
-		return o, fw.V("dtfmt_case", "CASE %s WHEN %s THEN 1 ELSE 0 END => %s, expected %s (%s)", qa, qb, g, wantCase, ctx())
+		return rel, bothDt, false, fw.V("dtfmt_case", "CASE %s WHEN %s THEN 1 ELSE 0 END => %s, expected %s (%s)", qa, qb, g, wantCase, ctx())
 	}
 	wantCast := ref.U
 	if bothDt {
@@ -328,13 +290,13 @@ func checkDf(c dfCase) (fw.Outcome, *fw.Violation) {
 	_, bNumeric := ref.AsFloat(val.Str(b))
 	castJudged := bothDt || (!aNumeric && !bNumeric)
 	if tv, ok := ternOf(row[len(items)+1]); castJudged && (!ok || tv != wantCast) {
-		return o, fw.V("dtfmt_cast", "DATETIME(%s) %s DATETIME(%s) => %s, expected %s (%s)", qa, c.Op, qb, row[len(items)+1], ref.TernName(wantCast), ctx())
+		return rel, bothDt, false, fw.V("dtfmt_cast", "DATETIME(%s) %s DATETIME(%s) => %s, expected %s (%s)", qa, c.Op, qb, row[len(items)+1], ref.TernName(wantCast), ctx())
 	}
 	// row-value comparison and row-value BETWEEN as filters (their own branches of evalComparison / evalBetween)
 	wsql := fmt.Sprintf("SELECT 1 FROM DUAL WHERE (1, %s) %s (1, %s) UNION ALL SELECT 2 FROM DUAL WHERE (1, %s) BETWEEN (1, %s) AND (1, %s)", qa, c.Op, qb, qa, qb, qb)
 	wt, werr := s.Query(wsql)
 	if werr != nil {
-		return o, fw.V("dtfmt_error", "%s: %v", wsql, werr)
+		return rel, bothDt, false, fw.V("dtfmt_error", "%s: %v", wsql, werr)
 	}
 	var wantRows []string
 	if ref.Op(rel, c.Op) == ref.T {
@@ -348,7 +310,89 @@ func checkDf(c dfCase) (fw.Outcome, *fw.Violation) {
 		gotRows = append(gotRows, r[0].S)
 	}
 	if strings.Join(gotRows, ",") != strings.Join(wantRows, ",") {
-		return o, fw.V("dtfmt_row_filter", "%s kept [%s], expected [%s] (%s)", wsql, strings.Join(gotRows, ","), strings.Join(wantRows, ","), ctx())
+		return rel, bothDt, false, fw.V("dtfmt_row_filter", "%s kept [%s], expected [%s] (%s)", wsql, strings.Join(gotRows, ","), strings.Join(wantRows, ","), ctx())
+	}
+	return rel, bothDt, false, nil
+}
+
+func checkDf(c dfCase) (fw.Outcome, *fw.Violation) {
+	o := fw.Outcome{}
+	loc, err := time.LoadLocation(c.Zone)
+	if err != nil {
+		return o, fw.Harness("zone %s: %v", c.Zone, err)
+	}
+	for _, k := range append(append([]int{}, c.Active...), c.Removed...) {
+		if k < 0 || k >= len(dfFormats) {
+			o.Discard = true
+			return o, nil
+		}
+	}
+	s, err := run.NewSess(run.Opt{Dir: fw.WorkDir()})
+	if err != nil {
+		return o, fw.Harness("%v", err)
+	}
+	defer s.Close()
+	var setup []string
+	envJSON := ""
+	if r := s.Exec(fmt.Sprintf("SET @@TIMEZONE TO '%s'", c.Zone)); r.Err != nil {
+		return o, fw.V("dtfmt_flag_error", "SET @@TIMEZONE TO '%s': %v", c.Zone, r.Err)
+	}
+	all := append(append([]int{}, c.Active...), c.Removed...)
+	switch c.SetAs {
+	case "json":
+		q := make([]string, len(all))
+		for i, k := range all {
+			q[i] = `"` + dfFormats[k].Fmt + `"`
+		}
+		setup = append(setup, fmt.Sprintf("SET @@DATETIME_FORMAT TO '[%s]'", strings.Join(q, ", ")))
+	case "add":
+		for _, k := range all {
+			setup = append(setup, fmt.Sprintf("ADD '%s' TO @@DATETIME_FORMAT", dfFormats[k].Fmt))
+		}
+	case "reload":
+		q := make([]string, len(all))
+		for i, k := range all {
+			q[i] = `"` + dfFormats[k].Fmt + `"`
+		}
+		envJSON = fmt.Sprintf(`{"datetime_format": [%s]}`, strings.Join(q, ", "))
+		setup = append(setup, "RELOAD CONFIG")
+	default:
+		for _, k := range all {
+			setup = append(setup, fmt.Sprintf("SET @@DATETIME_FORMAT TO '%s'", dfFormats[k].Fmt))
+		}
+	}
+	for _, k := range c.Removed {
+		setup = append(setup, fmt.Sprintf("REMOVE '%s' FROM @@DATETIME_FORMAT", dfFormats[k].Fmt))
+	}
+	if c.Before {
+		// no custom format is active yet: the texts written in one are plain text (or integers) now and must become
+		// datetimes once the format arrives, by whatever way it arrives
+		if _, _, discard, v := dfJudge(s, c, loc, nil, "SET @@TIMEZONE only (before the formats are set)"); v != nil || discard {
+			if v != nil && v.Sig != "HARNESS" {
+				v.Sig = "before_" + v.Sig
+			}
+			o.Discard = discard
+			return o, v
+		}
+	}
+	for _, q := range setup {
+		if q == "RELOAD CONFIG" {
+			cwd, _ := os.Getwd()
+			envFile := filepath.Join(cwd, "csvq_env.json")
+			if err := os.WriteFile(envFile, []byte(envJSON), 0644); err != nil {
+				return o, fw.Harness("%v", err)
+			}
+			defer os.Remove(envFile)
+		}
+		if r := s.Exec(q); r.Err != nil {
+			err := r.Err
+			return o, fw.V("dtfmt_flag_error", "%s: %v", q, err)
+		}
+	}
+	rel, bothDt, discard, v := dfJudge(s, c, loc, c.Active, strings.Join(setup, "; "))
+	if v != nil || discard {
+		o.Discard = discard
+		return o, v
 	}
 	kind := func(sp string) string {
 		switch {
@@ -389,7 +433,7 @@ func TestC06DtFormat(t *testing.T) {
 	fw.Run(t, fw.Spec[dfCase]{
 		ID: "C06", Name: "dt_format", Quick: 5000, Thorough: 120000,
 		Gen: genDf, Check: checkDf,
-		Rule: "a session of its own per case with @@TIMEZONE (5 zones) and 1-3 of ten datetime formats added to @@DATETIME_FORMAT by SET, SET with a JSON array or ADD, optionally one more added and REMOVEd again; two wall-clock times (equal, apart, unrelated; cut to the precision both spellings carry) each written in an active format, in one of 16 standard spellings (those of tz_spellings plus date-only padded / unpadded, RFC822 with numeric zone, ' -0700' after a dash date, an unpadded slash date with offset), in the removed format or in a format never added; = <> < <= > >= both ways round, BETWEEN, NOT BETWEEN, IN, NOT IN, op ANY, op ALL, op ANY (subquery), simple CASE, DATETIME() op DATETIME(), row-value IN / op ANY / IN (subquery) in the select list and row-value op / BETWEEN in WHERE; expected: the relation of the two instants (Go time package, session zone) when both strings are datetimes in this session, otherwise the ladder's remaining steps (integer for two %Y%m%d strings, text else) and UNKNOWN for the DATETIME() casts; non-trivial = at least one operand in a custom format, distinct by (kind of a, kind of b, how the formats were set, relation, UTC or not)",
+		Rule: "a session of its own per case with @@TIMEZONE (5 zones) and 1-3 of ten datetime formats added to @@DATETIME_FORMAT by SET, SET with a JSON array, ADD or RELOAD CONFIG (the formats are written to csvq_env.json in the working directory of the test process, which is private to it), optionally one more added and REMOVEd again; in 40% of the cases the same comparisons are first evaluated and judged in the same session BEFORE the formats are set (texts in a custom format are then plain text or integers), so that nothing remembered from that evaluation may survive the arrival of the format; two wall-clock times (equal, apart, unrelated; cut to the precision both spellings carry) each written in an active format, in one of 16 standard spellings (those of tz_spellings plus date-only padded / unpadded, RFC822 with numeric zone, ' -0700' after a dash date, an unpadded slash date with offset), in the removed format or in a format never added; = <> < <= > >= both ways round, BETWEEN, NOT BETWEEN, IN, NOT IN, op ANY, op ALL, op ANY (subquery), simple CASE, DATETIME() op DATETIME(), row-value IN / op ANY / IN (subquery) in the select list and row-value op / BETWEEN in WHERE; expected: the relation of the two instants (Go time package, session zone) when both strings are datetimes in this session, otherwise the ladder's remaining steps (integer for two %Y%m%d strings, text else) and UNKNOWN for the DATETIME() casts; non-trivial = at least one operand in a custom format, distinct by (kind of a, kind of b, how the formats were set, relation, UTC or not)",
 		Assumptions: []string{"the format placeholders are rendered with Go layouts written from the manual's placeholder table",
 			"the ten formats are mutually exclusive and none of their renderings is one of the standard spellings, so the order in which formats are tried cannot matter"},
 	})
